@@ -24,6 +24,18 @@ def run(mod, tier, seed):
         c.setdefault('id', i)
     outs = pool.map_cases(mod.__name__, 'run_case', cases)
     rep = report.Report(mod.PID, tier, seed, mod.LEVEL)
+    if hasattr(mod, 'fault_stage'):
+        # second stage (E4 level 1 inside an E1 check): every operation of the recorded trace of the selected
+        # points answers with every errno it can return; the module's oracle judges the faulted run
+        extra = mod.fault_stage(tier, cases, outs)
+        for i, c in enumerate(extra):
+            c.setdefault('id', len(cases) + i)
+        xouts = pool.map_cases(mod.__name__, 'run_case', extra)
+        rep.extra['fault_stage'] = {'base_points': sum(1 for o in outs if o.get('ops')), 'single_fault_executions': len(extra),
+                                    'delivered': sum(1 for o in xouts if o.get('delivered'))}
+        cases, outs = cases + extra, outs + xouts
+    for o in outs:
+        o.pop('ops', None)
     for c, o in zip(cases, outs):
         rep.add(c, o)
     rep.pick_samples(cases, outs)
